@@ -499,7 +499,7 @@ func init() {
 	}, Replay: func(c *Ctx, raw json.RawMessage) {
 		var hc histCase
 		if json.Unmarshal(raw, &hc) == nil && hc.Machine != "" {
-			replayHistory(c, c14PolMachine(c, strings.TrimPrefix(hc.Machine, "C14 closures ")), hc.History)
+			replayHistory(c, c14PolMachine(c, strings.TrimPrefix(hc.Machine, "C14 closures ")), hc.History, hc.Observed)
 			return
 		}
 		var cs c14PushCase
